@@ -19,7 +19,7 @@ SPEC = {
                   "completely in the thorough tier; larger canvases and huge coordinates are sampled. A defect confined to canvases "
                   "larger than 64x64, to coordinates beyond +-2^31, or to tuples not drawn by the quick-tier sample can be missed.",
     "stages": [
-        {"name": "c07", "variant": "asan", "shards": (16, 16), "timeout": (600, 3600)},
+        {"name": "c07", "variant": "asan", "shards": (16, 16)},
     ],
     "min_evaluations": 500000,
     "min_classes": {"quick": 250, "thorough": 250},
